@@ -101,8 +101,17 @@ class _P:
 
     def explist(self):
         self.eat("[")
-        v = self.until("]"); self.eat("]")
-        return v.split(" ") if v else []
+        out = []
+        while self.s[self.i] != "]":
+            if self.s[self.i] == " ":
+                self.i += 1
+            if self.s[self.i] == '"':
+                j = self.s.index('"', self.i + 1)
+                out.append(self.s[self.i:j + 1]); self.i = j + 1
+            else:
+                out.append(self.until(" ]"))
+        self.eat("]")
+        return out
 
     def err(self):
         k = self.s[self.i:self.i + 2]; self.i += 3
